@@ -437,7 +437,11 @@ def full_run(total, procs, gate_order, settle=0.4):
                 r["job"] = ident2job.get(e["name"].replace(".token", ""), e["name"])
             elif "job" in e:
                 r["job"] = e["job"]
-            for f in ("available", "by", "new"):
+            if k in ("sched.dep.add", "sched.dep.check"):
+                if e.get("origin") != "CounterToken":
+                    continue
+                r["job"] = ident2job.get(e.get("ident"), e.get("job", "?"))
+            for f in ("available", "by", "new", "status"):
                 if f in e:
                     r[f] = e[f]
         out.append(r)
